@@ -155,14 +155,50 @@ def oracle(ctx, extra):
         if check_one(m, p, others, doc, r.random() < 0.3, r.random() < 0.7, fails):
             n += 1
             nontriv.add((p, doc))
-        if len(fails) >= 5:
+        if i % 8 == 3:
+            # speedup is a built-in plugin without any trigger character: enabling it on top of any plugins must leave every document
+            # alone - through create_markdown and through the shortcut mistune.markdown().  (C09 states that property on its own and
+            # lists four mechanisms by which the unchanged library breaks it; the same mechanisms are one listed finding here.)
+            import props.C09 as c09
+            ps = [x for x in others if x in base_plugins]
+            d9 = doc
+            if r.random() < 0.5:
+                # a document that uses the constructs of one plugin, with that plugin among the others
+                need, d9 = gen_docs.showcase_for(r)
+                ps = list(dict.fromkeys(r.sample(need, len(need)) + ps)) if r.random() < 0.5 else list(dict.fromkeys(ps + need))
+            sub = []
+            c09.check_one(m, {"input": d9, "plugins": ps, "hard_wrap": False, "escape": r.random() < 0.7}, sub, shrink=False, shortcut=True)
+            n += 1
+            for f in sub:
+                f = dict(f, plugin="speedup", others=ps)
+                if f.get("class"):
+                    f["class"] = "speedup-known-divergences"
+                fails.append(f)
+        if len([f for f in fails if not f.get("class")]) >= 5:
             break
-    return {"evaluations": n, "distinct_nontrivial": len(nontriv), "failures": fails,
+    known = [f for f in fails if f.get("class")]
+    fails = [f for f in fails if not f.get("class")] + known[:2]
+    return {"evaluations": n, "distinct_nontrivial": len(nontriv), "failures": fails, "known_finding_instances": len(known),
             "rule": "for each of the 17 plugin/directive configurations in turn: a generated document (25% interrupt/lazy-continuation interaction fragments, 50% structured with "
                     "all plugin syntaxes, 10% mutated, 8% tabs and mixed indentation after container markers, 7% noise) from which one specified trigger character per rule of "
                     "the plugin has been deleted (for a plugin that takes over the handler of a core construct - spoiler: block quotes, task_lists: list items, fenced_directive: fenced code - half of the documents are made of that construct with tabs and mixed indentation, or have wide white space at the borders of block text); HTML with plugins=others vs others+[plugin], others = 0-5 random other "
-                    "plugins/directives, hard_wrap and escape random; distinct by (plugin, document)",
+                    "plugins/directives, hard_wrap and escape random; every 8th document also with and without speedup (a plugin without trigger characters) through create_markdown and the shortcut mistune.markdown(); distinct by (plugin, document)",
             "samples": [json.dumps(_strip(gen_docs.doc(ctx.rng('s'), plugins=gen_docs.ALL_PLUGINS), "|"))]}
+
+
+def classify(f, known):
+    for k in known:
+        if k["id"] == f.get("class"):
+            return k["id"]
+    return None
+
+
+def check_known(ctx, k):
+    import props.C09 as c09
+    cfg = k.get("config", {})
+    sub = []
+    c09.check_one(ctx.mistune, {"input": k["input"], "plugins": cfg.get("plugins", []), "hard_wrap": False, "escape": True}, sub, shrink=False)
+    return bool(sub)
 
 
 def replay(ctx, case):
